@@ -59,7 +59,7 @@ Definition complete_events (k : Z) (cur : A) (same : bool) (next : option A) : l
 (* TDVP: what sweep_complete does at the end of a sweep (time step k), when the oracle says whether
    the interaction matrix changed; `next` is target_times[k+2] when another step follows *)
 Lemma tdvp_sweep_complete (s : mstate) (same : bool) (rest : list bool) (next : option A) :
-  m_kind s = TDVP -> 3 <= m_N s -> o_same s = same :: rest ->
+  m_kind s = TDVP -> 2 <= m_N s -> o_same s = same :: rest ->
   (m_tidx s + 1 < m_steps s -> exists t, next = Some t /\ nthZ (m_times s) (m_tidx s + 2) = Some t) ->
   (m_steps s <= m_tidx s + 1 -> next = None) ->
   exists s', sweep_complete ar s = Ok s' /\
